@@ -25,6 +25,7 @@ const (
 	KGlobal
 	KIter
 	KUnit
+	KCellPath // address of a (nested) field inside a struct-valued local cell
 )
 
 type Val struct {
@@ -41,6 +42,8 @@ type Val struct {
 	Bind []Val
 	G    *ssa.Global
 	Box  *Val // for interface values built by MakeInterface: the boxed value
+	Path []int // KCellPath: field indices from the cell's struct value
+	Root types.Type // KCellPath: struct type of the cell
 }
 
 func term(t string, s Sort, typ types.Type) Val { return Val{K: KTerm, T: t, S: s, Typ: typ} }
